@@ -182,50 +182,40 @@ Qed.
 
 Lemma xml_term_ok : forall t,
   term_wf t = true -> forallb (forallb is_xml_char) (term_strings t) = true ->
-  memb N.eqb 13 (term_text t) = false -> empty_iri t = false -> falsy_lit t = false ->
+  memb N.eqb 13 (term_text t) = false -> empty_iri t = false ->
   xml_term_roundtrip t = Some t.
 Proof.
-  intros t Hwf Hch Hcr Hemp Hfal. unfold xml_term_roundtrip.
+  intros t Hwf Hch Hcr Hemp. unfold xml_term_roundtrip.
   destruct t as [s|s|lex dt lang]; simpl in Hch, Hcr.
   - apply andb_true_iff in Hch. destruct Hch as [Hs _].
-    destruct s as [|c r]; [discriminate|].
+    destruct s as [|c r]; [reflexivity|].
     simpl xml_write_term. cbv iota. rewrite decode_nonempty; [reflexivity|apply text_char_of; auto|discriminate].
   - apply andb_true_iff in Hch. destruct Hch as [Hs _].
     destruct s as [|c r]; [discriminate|].
     simpl xml_write_term. cbv iota. rewrite decode_nonempty; [reflexivity|apply text_char_of; auto|discriminate].
   - apply andb_true_iff in Hch. destruct Hch as [Hlex Hrest].
-    assert (Htc : forallb text_char lex = true) by (apply text_char_of; auto).
-    (* the text as written, and as read *)
-    assert (Htext : forall tr, xml_read false (sax_characters tr lex) = Some (if tr then lex else [])).
-    { intros [|]; simpl; [apply xml_read_text; auto|reflexivity]. }
+    assert (Htext : xml_read false (sax_escape lex) = Some lex) by (apply xml_read_text; apply text_char_of; auto).
     destruct lang as [[|c l]|]; [discriminate| |].
     + (* language-tagged *)
       destruct dt; [discriminate|]. simpl in Hrest. apply andb_true_iff in Hrest. destruct Hrest as [Hl _].
       simpl xml_write_term. cbv iota. unfold xml_decode_term. simpl x_text. simpl x_dt. simpl x_lang. simpl xk.
       rewrite Htext. simpl opt_map_o. rewrite (xml_read_attr_ok (c :: l) Hl).
-      unfold lit_truthy. destruct lex as [|c0 lex']; reflexivity.
+      destruct lex as [|c0 lex']; reflexivity.
     + destruct dt as [d|].
       * simpl in Hrest. apply andb_true_iff in Hrest. destruct Hrest as [Hd _].
         assert (Hdne : nonempty (Some d) = Some d) by (destruct d; [discriminate|reflexivity]).
         assert (Hwf' : str_eqb d xsd_boolean && str_eqb lex [] = false) by (apply negb_true_iff; exact Hwf).
-        assert (Hfal' : negb (str_eqb lex []) && negb (lit_truthy lex (Some d)) && negb (str_eqb d xsd_boolean) = false)
-          by exact Hfal.
-        clear Hwf Hfal Hemp.
+        clear Hwf Hemp.
         unfold xml_write_term. change (nonempty (@None str)) with (@None str). cbv iota. rewrite Hdne.
         unfold xml_decode_term. cbn [x_text x_dt x_lang xk]. rewrite Htext. cbn [opt_map_o].
         rewrite (xml_read_attr_ok d Hd).
         unfold xml_parseTerm. cbn [pk p_dt p_lang p_text]. rewrite Hdne.
-        destruct (lit_truthy lex (Some d)) eqn:Etr; destruct lex as [|c0 lex']; cbv iota.
+        destruct lex as [|c0 lex']; cbv iota.
         -- unfold py_Literal. rewrite Hwf'. reflexivity.
         -- unfold py_Literal. replace (str_eqb (c0 :: lex') []) with false by reflexivity.
            rewrite andb_false_r. reflexivity.
-        -- unfold py_Literal. rewrite Hwf'. reflexivity.
-        -- simpl negb in Hfal'. simpl andb in Hfal'. apply negb_false_iff in Hfal'. apply str_eqb_true in Hfal'.
-           subst d. unfold lit_truthy in Etr. change (str_eqb xsd_boolean xsd_integer) with false in Etr.
-           cbv iota in Etr. rewrite str_eqb_refl in Etr. apply negb_false_iff in Etr. apply str_eqb_true in Etr.
-           rewrite Etr. reflexivity.
       * simpl xml_write_term. cbv iota. unfold xml_decode_term. simpl x_text. simpl x_dt. simpl x_lang. simpl xk.
-        rewrite Htext. simpl opt_map_o. unfold lit_truthy. destruct lex as [|c0 lex']; reflexivity.
+        rewrite Htext. simpl opt_map_o. destruct lex as [|c0 lex']; reflexivity.
 Qed.
 
 (* ------------------------------------------------------------------ *)
@@ -300,12 +290,11 @@ Proof.
                (c_vars c ++ flat_map keys (c_rows c) ++ flat_map term_strings (case_terms c)))) eqn:E1; [discriminate|].
     destruct (existsb (fun t => memb N.eqb 13 (term_text t)) (case_terms c)) eqn:E2; [discriminate|].
     destruct (existsb empty_iri (case_terms c)) eqn:E3; [discriminate|].
-    destruct (existsb falsy_lit (case_terms c)) eqn:E4; [discriminate|].
     apply negb_false_iff in E1. rewrite !forallb_app in E1.
     apply andb_true_iff in E1. destruct E1 as [Hv E1]. apply andb_true_iff in E1. destruct E1 as [Hk Hs].
     unfold wf in Hwf. rewrite Hf in Hwf. apply andb_true_iff in Hwf. destruct Hwf as [Hwf Hx].
     apply andb_true_iff in Hwf. destruct Hwf as [Hnd Hrows].
-    apply andb_true_iff in Hx. destruct Hx as [Hsome _].
+    rename Hx into Hsome.
     rewrite xml_select; auto.
     + rewrite list_eqb_refl by apply str_eqb_refl. simpl. apply rows_ok_bound_of. auto.
     + intros r Hr [k o] Hkv. split.
@@ -324,5 +313,4 @@ Proof.
            apply in_flat_map. exists t. auto.
         -- apply (existsb_false _ _ _ E2 t Hin).
         -- apply (existsb_false _ _ _ E3 t Hin).
-        -- apply (existsb_false _ _ _ E4 t Hin).
 Qed.
